@@ -12,6 +12,8 @@ import (
 	"strings"
 	"testing"
 
+	realunix "golang.org/x/sys/unix"
+
 	"github.com/panjf2000/gnet/v2/internal/verifmc/mcsys"
 	"github.com/panjf2000/gnet/v2/internal/verifmc/sched"
 	"github.com/panjf2000/gnet/v2/internal/verifmc/seqmc"
@@ -30,6 +32,7 @@ type c03cfg struct {
 	preLow    int // low-priority tasks queued before the loop starts
 	preHigh   int
 	producers [][]ptask
+	saturate  bool // the wake-up eventfd's counter is at its maximum: the next write(2) to it really returns EAGAIN
 }
 
 type c03scn struct {
@@ -72,6 +75,15 @@ func (s *c03scn) Body() {
 	s.p = p
 	if s.cfg.threshold > 0 {
 		p.highPriorityEventsThreshold = int32(s.cfg.threshold)
+	}
+	if s.cfg.saturate {
+		// an eventfd counter holds at most 2^64-2; nobody reads it in the default poller, so after
+		// enough wake-ups (here: one big write) Trigger's write fails with EAGAIN for real and the
+		// poller has to drain the counter and write again
+		b := []byte{0xfe, 0xff, 0xff, 0xff, 0xff, 0xff, 0xff, 0xff}
+		if _, err := realunix.Write(c03Efd(p), b); err != nil {
+			panic(err)
+		}
 	}
 	for i := 0; i < s.cfg.preHigh; i++ {
 		_, f := s.newTask("pre/high")
@@ -205,6 +217,8 @@ func c03Configs(thorough bool) []c03cfg {
 		{name: "2x1hh", producers: [][]ptask{{hi}, {hi}}},
 		{name: "2x2", producers: [][]ptask{{hi, hi}, {lo, hi}}},
 		{name: "nested", producers: [][]ptask{{ne}, {lo}}},
+		{name: "saturated-efd/1x1", saturate: true, producers: [][]ptask{{hi}}},
+		{name: "saturated-efd/2x1", saturate: true, producers: [][]ptask{{hi}, {lo}}},
 		{name: "pre257low+1", preLow: 257, producers: [][]ptask{{lo}}},
 		{name: "pre1024high+1", preHigh: 1024, producers: [][]ptask{{lo}}},
 		{name: "pre1024high+hh", preHigh: 1024, producers: [][]ptask{{hi, hi}}},
